@@ -303,7 +303,7 @@ impl Property for C19 {
         }
     }
     fn required_labels(&self, _tier: Tier) -> Vec<&'static str> {
-        vec!["nontrivial", "categories>30", "missing-root", "term-below-modifier-and-phenotype-branch", "term-in-several-categories", "118-not-below-1", "118-without-children", "childless-top-level-term", "public-setters-after-build_minimal", "categories>255"]
+        vec!["nontrivial", "categories>30", "missing-root", "term-below-modifier-and-phenotype-branch", "term-in-several-categories", "118-not-below-1", "118-without-children", "childless-top-level-term", "public-setters-after-build_minimal", "categories>255", "bulk>65535-terms"]
     }
     fn run_generated(&self, tier: Tier, seed: u64, n: u64, stats: &mut Stats) -> Option<(Value, Failure)> {
         run_typed(strategy(tier), seed, n, stats, check)
@@ -319,10 +319,21 @@ impl Property for C19 {
             }
             return Ok(r);
         }
+        if let Some(b) = case.get("bulk") {
+            // more terms than a 16-bit index addresses (see `bulk_facts`): every term classified
+            let v: (u32, u32, PathSel, u8) = serde_json::from_value(b.clone()).map_err(|e| e.to_string())?;
+            stats.cases += 1;
+            let c = Case { base: OntCase { facts: super::common::bulk_facts(v.0, v.1, 4), path: v.2, noise: Default::default() }, drop_roots: 0, setters: v.3 };
+            let r = check(&c, stats);
+            if r.is_ok() {
+                stats.label("bulk>65535-terms");
+            }
+            return Ok(r);
+        }
         replay_typed::<Case, _>(case, stats, check)
     }
     fn isolated_plans(&self, tier: Tier, _seed: u64) -> Vec<Value> {
-        let mut out = vec![json!({"wide": (300u32, 260u32, PathSel::BuilderDefaults, 0u8)}), json!({"wide": (256u32, 1500u32, PathSel::Bin(3), 0u8)})];
+        let mut out = vec![json!({"wide": (300u32, 260u32, PathSel::BuilderDefaults, 0u8)}), json!({"wide": (256u32, 1500u32, PathSel::Bin(3), 0u8)}), json!({"bulk": (65_900u32, 7919u32, PathSel::Bin(3), 0u8)})];
         if tier == Tier::Thorough {
             out.push(json!({"wide": (4000u32, 300u32, PathSel::Builder, 2u8)}));
             out.push(json!({"wide": (300u32, 300u32, PathSel::Jax, 0u8)}));
